@@ -434,7 +434,8 @@ def iAgnosticSpec : IExpr := .op2 opMake (.op2 opMake (.atom (.param 0)) (.atom 
 def iAgnostic : IProg :=
   { keyAtoms := fun _ => [.param 0, .grid, .wavelength], spec := fun _ => iAgnosticSpec,
     body := [.memoRead 1 0 iAgnosticSpec, .memoFill 0 iAgnosticSpec],
-    ret := .op2 opMul .field (.loc 1) }
+    ret := .op2 opMul .field (.loc 1),
+    cap := fun _ => 11 }
 
 /-- `DeformableMirror.surface` (also segmented and tip-tilt mirrors): `_surface` is the linear
 combination for `_actuators_for_cached_surface`; recomputed when the actuators differ. -/
@@ -470,7 +471,8 @@ def iPropagator : IProg :=
     body := [.memoRead 1 0 iAgnosticSpec, .memoFill 0 iAgnosticSpec,
              .memoRead 2 1 (.op1 opMatrices (.atom (.param 1))), .memoFill 1 (.op1 opMatrices (.atom (.param 1))),
              .scratchWrite 0 (.op1 opPad .field), .scratchRead 3 0],
-    ret := .op2 opFT (.loc 3) (.op2 opMul (.loc 1) (.loc 2)) }
+    ret := .op2 opFT (.loc 3) (.op2 opMul (.loc 1) (.loc 2)),
+    cap := fun c => if c = 0 then 11 else 1 }
 
 /-- `ModulatedPyramidWavefrontSensorOptics`: sets the actuators of the tip-tilt mirror it owns to
 each modulation point in turn; what stays behind is the last point, a function of its parameters. -/
